@@ -262,7 +262,7 @@ def run_stream(ctx, monitor):
     opts = {"depth": ctx.scale(1, 2), "depth2_attempts": 30, "depth2_procs": 5,
             "pure_sample": ctx.scale(3, 5), "pure_ccode": ctx.scale(2, 5), "pure_query_every": ctx.scale(60, 40),
             "pure_monitor_every": ctx.scale(5, 3), "pure_cursors": 16, "pure_ccode_queries": 1,
-            "pure_monitor": monitor}
+            "pure_monitor": monitor, "pure_caches": monitor.get("caches", [])}
     jobs = []
     rng = random.Random(f"stream:{ctx.seed}")
     items = [(k, v) for k, v in sorted(pool.POOL.items()) if names is None or k in names]
@@ -381,13 +381,20 @@ def run(ctx):
         for f in g.funcs:
             func_line[(g.file, f.name)] = f.line
     for w in wl:
-        if w["reason"].startswith("accumulator parameter") or w.get("finding"):
+        if w["reason"].startswith("accumulator parameter"):
             for rel in pymut.FILES:
                 ln = func_line.get((rel, w["func"]))
                 if ln:
                     exempt.append((rel, ln, "*"))
+    import re as _re
+    caches = []
+    for w in wl:
+        m = _re.match(r"add-only cache: `(\w+)`", w["reason"])
+        if m:
+            caches.append(("exo." + w["file"][:-3].replace("/", "."), m.group(1)))
     monitor = {"files": {str((base / rel).resolve()): rel for rel in pymut.FILES} | {str(base / rel): rel for rel in pymut.FILES},
-               "exempt": sorted(set(exempt))}
+               "exempt": sorted(set(exempt)), "caches": sorted(set(caches))}
+    ctx.extra["tracked_caches"] = [f"{a}.{b}" for a, b in sorted(set(caches))]
     recs = run_stream(ctx, monitor)
     dyn = []          # concrete violations found dynamically
     mon_calls = {}
@@ -444,6 +451,10 @@ def run(ctx):
         op = (x.get("att") or {}).get("op", "?")
         if x["kind"] == "func-impure":
             k = f"func:{x['diff_class']}"
+            fn = x["detail"]["func"].replace(".<locals>", "")
+            for w in wl:
+                if w.get("finding") and w["func"] == fn:
+                    k = w["finding"]     # the dynamic face of a recorded finding
         elif x["kind"] == "impure-cursor":
             k = f"{op}:cursor-changed"
         else:
